@@ -1,6 +1,8 @@
 package c14
 
 import (
+	"strings"
+	"sort"
 	"fmt"
 
 	"github.com/ipld/go-ipld-prime/datamodel"
@@ -127,7 +129,41 @@ func CheckTyped(c TCase) (fs []core.Finding, n int) {
 			root = root.(schema.TypedNode).Representation()
 		}
 		where := fmt.Sprintf("bindnode %s.%s value %s, %s view", s.Name, t.Name, c.Value, c.View)
-		return checkTypedWalk(root, where, rs.Strategy(t)+"/"+c.View)
+		fs, n = checkTypedWalk(root, where, rs.Strategy(t)+"/"+c.View)
+		if c.View == "type" && len(fs) == 0 {
+			// the walk names the positions as the schema does (fields by name, members by type name, map
+			// entries by the representation string of their key): the set of visited paths is that set
+			const limit = 400
+			pos := s.Positions(t, c.Value, limit)
+			if len(pos) < limit {
+				want := map[string]bool{}
+				for _, p := range pos {
+					want[strings.Join(p.Segs, "/")] = true
+				}
+				got := map[string]bool{}
+				core.Guard(func() {
+					traversal.WalkLocal(root, func(p traversal.Progress, nd datamodel.Node) error {
+						if !nd.IsAbsent() {
+							got[p.Path.String()] = true
+						}
+						return nil
+					})
+				})
+				for k := range want {
+					if !got[k] && !strings.Contains(k, "//") && !strings.HasSuffix(k, "/") {
+						fs = append(fs, core.F("typed-visit/"+rs.Strategy(t)+"/position-not-visited-under-its-schema-name", "%s: no visit at %q; visited: %v", where, k, keys(got)))
+						break
+					}
+				}
+				for k := range got {
+					if !want[k] && len(fs) == 0 {
+						fs = append(fs, core.F("typed-visit/"+rs.Strategy(t)+"/visit-at-a-path-the-schema-does-not-name", "%s: visit at %q; the schema names %v", where, k, keys(want)))
+						break
+					}
+				}
+			}
+		}
+		return fs, n
 	}
 	return nil, 0
 }
@@ -170,4 +206,13 @@ func typedVisits(r *core.Run) {
 	})
 	r.Set("typed_visits", map[string]any{"root_types": len(jobs), "values_per_type_cap": typedValuesCap})
 	r.Outcome("typed-visits")
+}
+
+func keys(m map[string]bool) []string {
+	var out []string
+	for k := range m {
+		out = append(out, k)
+	}
+	sort.Strings(out)
+	return out
 }
